@@ -7,8 +7,24 @@ HashResize : the integer decisions of the hash table's resize machinery, taken f
   * the conditions under which sc_hash_insert_unique / sc_hash_remove call sc_hash_maybe_resize.
 AvlBalance : sc_avl.c's `lg` and the count-based decision of avl_check_balance as a function of (pl, r).
 The hand-written models in coq/C09 use these generated constants, so the theorems are re-checked
-against what the code says now."""
+against what the code says now.
+
+ContainersC09 / AvlStepsC09 / KeyValueC09 (second half of this file): slices of the bodies of the sc_mstamp / sc_mempool / sc_list /
+sc_hash_array / sc_recycle_array functions, of the slot index of the hash table, of the loop bodies of avl_at / avl_index /
+avl_search_closest, the rotation-kind tests and CALC_COUNT of avl_rebalance, and of sc_keyvalue_get_int_check / exists / unset with the
+enumerators of sc_keyvalue_entry_type_t.  coq/C09/GenTies.v proves the hand-written models EQUAL to them (theorems C09_gen_*).
+Conventions beyond tools/c2g/slicelib.py are the AST rewrites of `mk_rw` below (each refuses what it cannot justify):
+  * `T *p = &X;` with p never reassigned: p is replaced by &X;  `(&X)->f` is `X.f`;
+  * a prefix ++/-- inside a condition, a return value or the right side of an assignment is executed first, provided the
+    incremented location occurs nowhere else in that expression;
+  * `A = B = C` is `B = C; A = B`;  `return call (..)` / `if (call (..))` for a call in `effects` first stores the result in `<callee>_result`;
+  * `x = *(T *) call (..)` reads the parameter `<callee>_ret_deref`; `*(T *) call (..) = v` writes the output `<callee>_store`;
+  * `&X` (X a struct member) passed to a call is the opaque address parameter `addr_<X>`; a slice that reads a field of X after such a
+    call is refused unless the callee is declared pure;
+  * inside a loop body `return e` is `retval = e; break` (`return (a = b, e)` is `a = b; retval = e; break`);
+  * the enum type sc_keyvalue_entry_type_t is read as unsigned int (its enumerators are generated as c9_SC_KEYVALUE_ENTRY_*)."""
 import os
+import copy
 
 
 def register(GROUPS, c2g, incs, REPO, HERE, STRUCTS, Group):
@@ -135,3 +151,604 @@ def register(GROUPS, c2g, incs, REPO, HERE, STRUCTS, Group):
 
     GROUPS["HashResize"] = gen_hash_resize
     GROUPS["AvlBalance"] = gen_avl_balance
+    register_more(GROUPS, c2g, incs, REPO, HERE, STRUCTS, Group)
+
+
+# ======================================================================================================================
+# Extension (deep-c09): slices of the container, AVL and key-value code.
+# ======================================================================================================================
+# AST rewrites used by the C09 slices (semantics preserving, each refuses what it cannot justify)
+
+def mk_rw(c2g, sl):
+    class RW:
+        pass
+    R = RW()
+
+    def kids(n):
+        return [c for c in n.get("inner", []) if isinstance(c, dict)]
+
+    def pseudo(name, ty="size_t", dty="unsigned long"):
+        return {"kind": "DeclRefExpr", "type": {"qualType": ty, "desugaredQualType": dty}, "valueCategory": "lvalue",
+                "referencedDecl": {"kind": "VarDecl", "name": name, "type": {"qualType": ty, "desugaredQualType": dty}}}
+
+    def rvalue(n):
+        return {"kind": "ImplicitCastExpr", "castKind": "LValueToRValue", "type": n.get("type", {}), "inner": [n]}
+
+    def mapn(n, f):
+        """bottom-up map over dict nodes"""
+        if not isinstance(n, dict):
+            return n
+        m = dict(n)
+        if "inner" in m:
+            m["inner"] = [mapn(c, f) for c in m["inner"]]
+        return f(m)
+
+    def subst_var(n, name, repl):
+        def f(m):
+            if m.get("kind") == "DeclRefExpr" and m.get("referencedDecl", {}).get("name") == name:
+                return copy.deepcopy(repl)
+            return m
+        return mapn(n, f)
+
+    def norm_addr_arrow(n):
+        """(&X)->f  ==>  X.f   and   *&X ==> X"""
+        def f(m):
+            if m.get("kind") == "MemberExpr" and m.get("isArrow"):
+                b = sl.strip(m["inner"][0])
+                if b.get("kind") == "UnaryOperator" and b.get("opcode") == "&":
+                    m = dict(m, isArrow=False, inner=[b["inner"][0]])
+            return m
+        return mapn(n, f)
+
+    def key_of(T, n):
+        try:
+            return T.lvalue_key(n)
+        except c2g.Unsupported:
+            return None
+
+    def addr_args(n, T, touched):
+        """&X (X a struct member path) as a call argument ==> the opaque address `addr_<key of X>`; the keys are
+        collected in `touched` (the callee may write the fields of X)"""
+        def f(m):
+            if m.get("kind") == "CallExpr":
+                new = [m["inner"][0]]
+                for a in m["inner"][1:]:
+                    s = sl.strip(a)
+                    if s.get("kind") == "UnaryOperator" and s.get("opcode") == "&" and sl.strip(s["inner"][0]).get("kind") == "MemberExpr":
+                        k = key_of(T, sl.strip(s["inner"][0]))
+                        if k is None:
+                            raise c2g.Unsupported("address of an unsupported lvalue passed to a call")
+                        touched.setdefault(sl.callee_name(m), set()).add(k)
+                        new.append(pseudo("addr_" + k, "void *", "void *"))
+                    else:
+                        new.append(a)
+                m = dict(m, inner=new)
+            return m
+        return mapn(n, f)
+
+    def inline_ptr_alias(stmts):
+        """T *p = &X;  (X a struct member path or a local variable; p never assigned again)  ==>  every p replaced by &X"""
+        out = list(stmts)
+        i = 0
+        while i < len(out):
+            s = out[i]
+            hit = None
+            if s.get("kind") == "DeclStmt":
+                for d in kids(s):
+                    init = kids(d)
+                    if init and sl.strip(init[0]).get("kind") == "UnaryOperator" and sl.strip(init[0]).get("opcode") == "&" and \
+                            sl.strip(sl.strip(init[0])["inner"][0]).get("kind") in ("MemberExpr", "DeclRefExpr"):
+                        hit = d
+                        break
+            if hit is not None:
+                name = hit["name"]
+                rest = out[i + 1:]
+                assigned = []
+                def chk(m):
+                    if m.get("kind") in ("BinaryOperator", "CompoundAssignOperator") and m.get("opcode", "").endswith("=") and m.get("opcode") not in ("==", "!=", "<=", ">="):
+                        l = sl.strip(m["inner"][0])
+                        if l.get("kind") == "DeclRefExpr" and l["referencedDecl"]["name"] == name:
+                            assigned.append(1)
+                for r in rest:
+                    sl.walk(r, chk)
+                if assigned:
+                    raise c2g.Unsupported("pointer alias %s is reassigned" % name)
+                repl = sl.strip(kids(hit)[0])
+                others = [d for d in kids(s) if d is not hit]
+                head = [dict(s, inner=others)] if others else []
+                out = out[:i] + head + [norm_addr_arrow(subst_var(r, name, repl)) for r in rest]
+                continue
+            i += 1
+        return out
+
+    def returns_to_breaks(stmts, name="retval", ty="int", dty="int"):
+        """inside a loop body: return e  ==>  retval = e; break   (and `return (a = b, e)` ==> a = b; retval = e; break)"""
+        def conv(n):
+            if not isinstance(n, dict):
+                return n
+            if n.get("kind") == "ReturnStmt":
+                e = kids(n)[0]
+                pre = []
+                c = c2g.skip_parens(e)
+                while c.get("kind") in ("ImplicitCastExpr",) :
+                    c = c2g.skip_parens(c["inner"][0])
+                if c.get("kind") == "BinaryOperator" and c.get("opcode") == ",":
+                    pre = [c["inner"][0]]
+                    e = c["inner"][1]
+                pv = pseudo(name, ty, dty)
+                asg = {"kind": "BinaryOperator", "opcode": "=", "type": {"qualType": ty}, "inner": [pv, e]}
+                return {"kind": "CompoundStmt", "inner": pre + [asg, {"kind": "BreakStmt"}]}
+            m = dict(n)
+            if "inner" in m:
+                m["inner"] = [conv(c) for c in m["inner"]]
+            return m
+        return [conv(s) for s in stmts]
+
+    def is_pre(m):
+        return m.get("kind") == "UnaryOperator" and m.get("opcode") in ("++", "--") and not m.get("isPostfix")
+
+    def hoist_pre(T, e):
+        """prefix ++/-- inside the expression e ==> (list of the increments as statements, e with the operand in their place).
+        Refused unless the incremented location occurs exactly once in e."""
+        pres = sl.find_nodes(e, is_pre)
+        if not pres:
+            return [], e
+        keys = []
+        for p in pres:
+            k = key_of(T, p["inner"][0])
+            if k is None:
+                raise c2g.Unsupported("prefix increment of an unsupported lvalue")
+            keys.append(k)
+        # occurrences of each key in e
+        for k in keys:
+            cnt = []
+            def f(m):
+                if m.get("kind") in ("DeclRefExpr", "MemberExpr") and key_of(T, m) == k:
+                    cnt.append(1)
+            sl.walk(e, f)
+            if len(cnt) != 1:
+                raise c2g.Unsupported("incremented location %s is used twice in one expression" % k)
+        ids = set(id(p) for p in pres)
+        def g(m):
+            return m
+        def repl(n):
+            if not isinstance(n, dict):
+                return n
+            if id(n) in ids:
+                return rvalue(n["inner"][0])
+            m = dict(n)
+            if "inner" in m:
+                m["inner"] = [repl(c) for c in m["inner"]]
+            return m
+        return [dict(p) for p in pres], repl(e)
+
+    def deref_call(n, effects):
+        """n = *(T *) call (..) with call in effects: the call node, else None"""
+        m = c2g.skip_parens(n)
+        while m.get("kind") == "ImplicitCastExpr" and m.get("castKind") in ("LValueToRValue", "NoOp"):
+            m = c2g.skip_parens(m["inner"][0])
+        if m.get("kind") == "UnaryOperator" and m.get("opcode") == "*":
+            c = sl.strip(m["inner"][0])
+            if c.get("kind") == "CallExpr" and sl.callee_name(c) in effects:
+                return c
+        return None
+
+    def void_stmt(call):
+        return {"kind": "CStyleCastExpr", "castKind": "ToVoidX", "type": {"qualType": "void"}, "inner": [call]}
+
+    def rewrite_stmt(T, s, effects, count):
+        """-> list of statements"""
+        k = s.get("kind")
+        if k == "CompoundStmt":
+            return [dict(s, inner=rewrite_list(T, kids(s), effects, count))]
+        if k == "IfStmt":
+            inner = kids(s)
+            c0 = sl.strip(inner[0])
+            if c0.get("kind") == "CallExpr" and sl.callee_name(c0) in effects:
+                # if (call (..))  ==>  <callee>_result = call (..); if (<callee>_result)
+                pv = pseudo(sl.callee_name(c0) + "_result", "int", "int")
+                asg = {"kind": "BinaryOperator", "opcode": "=", "type": {"qualType": "int"}, "inner": [pv, c0]}
+                cond0 = {"kind": "ImplicitCastExpr", "castKind": "IntegralToBoolean", "type": {"qualType": "_Bool"}, "inner": [rvalue(pv)]}
+                rest_ = rewrite_stmt(T, dict(s, inner=[rvalue(pv)] + inner[1:]), effects, count)
+                return [asg] + rest_
+            pre, cond = hoist_pre(T, inner[0])
+            arms = []
+            for a in inner[1:]:
+                r = rewrite_stmt(T, a, effects, count)
+                arms.append(r[0] if len(r) == 1 else {"kind": "CompoundStmt", "inner": r})
+            return pre + [dict(s, inner=[cond] + arms)]
+        if k in ("WhileStmt", "ForStmt", "DoStmt"):
+            return [s]
+        if k == "ReturnStmt" and kids(s):
+            e = kids(s)[0]
+            c = sl.strip(e)
+            if c.get("kind") == "CallExpr" and sl.callee_name(c) in effects:
+                # return call (..)  ==>  <callee>_result = call (..); return <callee>_result
+                pv = pseudo(sl.callee_name(c) + "_result", "void *", "void *")
+                asg = {"kind": "BinaryOperator", "opcode": "=", "type": {"qualType": "void *"}, "inner": [pv, c]}
+                return [asg, dict(s, inner=[rvalue(pv)])]
+            pre, e2 = hoist_pre(T, e)
+            return pre + [dict(s, inner=[e2])]
+        if k == "BinaryOperator" and s.get("opcode") == "=":
+            lhs, rhs = s["inner"]
+            r = c2g.skip_parens(rhs)
+            while r.get("kind") in ("ImplicitCastExpr", "CStyleCastExpr") and r.get("castKind") != "ToVoid" and \
+                    c2g.skip_parens(r["inner"][0]).get("kind") == "BinaryOperator" and c2g.skip_parens(r["inner"][0]).get("opcode") == "=":
+                r = c2g.skip_parens(r["inner"][0])
+            if r.get("kind") == "BinaryOperator" and r.get("opcode") == "=":
+                # A = B = C  ==>  B = C; A = B   (B a plain location, read back without side effect)
+                first = rewrite_stmt(T, r, effects, count)
+                second = dict(s, inner=[lhs, rvalue(r["inner"][0])])
+                return first + rewrite_stmt(T, second, effects, count)
+            c = deref_call(rhs, effects)
+            if c is not None:
+                nm = sl.callee_name(c)
+                count[nm] = count.get(nm, 0) + 1
+                pv = pseudo("%s%s_ret_deref" % (nm, "" if count[nm] == 1 else str(count[nm])))
+                return [c, dict(s, inner=[lhs, rvalue(pv)])]
+            c = deref_call(lhs, effects)
+            if c is not None:
+                nm = sl.callee_name(c)
+                count[nm] = count.get(nm, 0) + 1
+                pv = pseudo("%s%s_store" % (nm, "" if count[nm] == 1 else str(count[nm])))
+                return [c, dict(s, inner=[pv, rhs])]
+            pre, rhs2 = hoist_pre(T, rhs)
+            return pre + [dict(s, inner=[lhs, rhs2])]
+        return [s]
+
+    def rewrite_list(T, ss, effects, count):
+        out = []
+        for s in ss:
+            out += rewrite_stmt(T, s, effects, count)
+        return out
+
+    def prepare(stmts, effects, T=None):
+        """all rewrites; -> (statements, {callee: keys of the structs passed by address})"""
+        T = T or sl.SliceT()
+        T.fname = "rewrite"
+        ss = inline_ptr_alias(list(stmts))
+        ss = [norm_addr_arrow(s) for s in ss]
+        ss = rewrite_list(T, ss, effects, {})
+        touched = {}
+        ss = [addr_args(s, T, touched) for s in ss]
+        return ss, touched
+
+
+    def retype(stmts, tyname, to="unsigned int"):
+        """an enum type whose enumerators are small non-negative numbers is read as unsigned int"""
+        def f(m):
+            t = m.get("type")
+            if isinstance(t, dict) and (tyname in t.get("qualType", "") and "*" not in t.get("qualType", "")):
+                m = dict(m, type={"qualType": to, "desugaredQualType": to})
+            return m
+        return [mapn(s, f) for s in stmts]
+
+    R.retype = retype
+    R.prepare = prepare
+    R.returns_to_breaks = returns_to_breaks
+    R.pseudo = pseudo
+    return R
+
+
+def register_more(GROUPS, c2g, incs, REPO, HERE, STRUCTS, Group):
+    import slicelib as sl
+    R = mk_rw(c2g, sl)
+    CF = os.path.join(REPO, "src", "sc_containers.c")
+    CH = os.path.join(REPO, "src", "sc_containers.h")
+    AF = os.path.join(REPO, "src", "sc_avl.c")
+    KF = os.path.join(REPO, "src", "sc_keyvalue.c")
+    KH = os.path.join(REPO, "src", "sc_keyvalue.h")
+
+    def kids(n):
+        return [c for c in n.get("inner", []) if isinstance(c, dict)]
+
+    def body(F):
+        return kids([c for c in F["inner"] if c.get("kind") == "CompoundStmt"][0])
+
+    def loopbody(F):
+        w = [s for s in body(F) if s.get("kind") in ("WhileStmt", "ForStmt")]
+        if len(w) != 1:
+            raise c2g.Unsupported("%s: expected exactly one top-level loop" % F.get("name"))
+        cs = [c for c in kids(w[0]) if c.get("kind") == "CompoundStmt"]
+        if len(cs) != 1:
+            raise c2g.Unsupported("%s: loop body is not a block" % F.get("name"))
+        return kids(cs[0])
+
+    def no_read_after(stmts, touched, fname):
+        """a struct passed by address to a call may be written by the callee: refuse slices that read its fields later"""
+        T = sl.SliceT()
+        T.fname = fname
+        calls = []
+
+        def f(n):
+            if n.get("kind") == "CallExpr" and sl.callee_name(n) in touched:
+                calls.append((c2g.node_offsets(n)[1], touched[sl.callee_name(n)]))
+        for s in stmts:
+            sl.walk(s, f)
+
+        def g(n):
+            if n.get("kind") == "MemberExpr":
+                try:
+                    k = T.lvalue_key(n)
+                except c2g.Unsupported:
+                    return
+                b = c2g.node_offsets(n)[0]
+                for end, keys in calls:
+                    if end is not None and b is not None and b > end and any(k.startswith(p + "_") for p in keys):
+                        raise c2g.Unsupported("%s: %s is read after its struct was passed by address to a call" % (fname, k))
+        for s in stmts:
+            sl.walk(s, g)
+
+    def mkslicer(tmp, cache):
+        def fn(name, file):
+            key = (name, file)
+            if key not in cache:
+                cache[key] = c2g.find_function(c2g.clang_ast(file, name, incs(tmp)), name)
+            return cache[key]
+
+        def sl_fn(g, gname, cname, file, outs, want, effects=(), pick=None, pre=None, expect_outs=None, comment="", **kw):
+            F = fn(cname, file)
+            b = pick(F) if pick else body(F)
+            if pre:
+                b = pre(b)
+            ss, touched = R.prepare(b, effects)
+            no_read_after(ss, dict((k_, v_) for k_, v_ in touched.items() if k_ not in kw.get("pure", ())), cname)
+            kw.pop("pure", None)
+            t, i = sl.emit_block(ss, gname, outs, cname, effects=effects, effect_called=True, want_params=want, comment=comment, **kw)
+            if expect_outs is not None and i["outputs"] != expect_outs:
+                raise c2g.Unsupported("%s: outputs %s, expected %s" % (cname, i["outputs"], expect_outs))
+            g.add(t, i)
+        return fn, sl_fn
+
+    # ------------------------------------------------------------------------------------------------------------------
+    def gen_containers(tmp):
+        g = Group("ContainersC09")
+        fn, S = mkslicer(tmp, {})
+        # --- sc_array helpers used by the pools and the recycle array (static inline, sc_containers.h)
+        S(g, "c9_array_index", "sc_array_index", CF, ["ret"], ["array_array", "array_elem_size", "iz"], ret="ret",
+          comment="sc_array_index: the address of element iz")
+        S(g, "c9_array_pop", "sc_array_pop", CF, ["ret", "array_elem_count"], ["array_array", "array_elem_size", "array_elem_count"], ret="ret",
+          comment="sc_array_pop: (address of the removed last element, new elem_count)")
+        # --- memory stamps
+        F = fn("sc_mstamp_init", CF)
+        ms = sl.find_nodes(F, lambda n: sl.callee_name(n) == "memset")
+        ok = len(ms) == 1 and sl.strip(ms[0]["inner"][1]).get("referencedDecl", {}).get("name") == "mst" and \
+            sl.strip(ms[0]["inner"][2]).get("kind") == "IntegerLiteral" and sl.strip(ms[0]["inner"][2]).get("value") == "0"
+        if not ok:
+            raise c2g.Unsupported("sc_mstamp_init: no memset (mst, 0, ..) at the start")
+        S(g, "c9_mstamp_init", "sc_mstamp_init", CF, ["mst_elem_size", "mst_per_stamp", "mst_stamp_size", "mst_cur_snext", "*ghosts"],
+          ["stamp_unit", "elem_size", "mst", "addr_mst_remember"], params=("stamp_unit", "elem_size"),
+          effects=("sc_array_init", "sc_mstamp_stamp"), drop_calls=("memset",),
+          init={"mst_per_stamp": "0", "mst_stamp_size": "0", "mst_cur_snext": "0"},
+          expect_outs=["mst_elem_size", "mst_per_stamp", "mst_stamp_size", "mst_cur_snext", "sc_array_init_called", "sc_array_init_arg0",
+                       "sc_array_init_arg1", "sc_mstamp_stamp_called", "sc_mstamp_stamp_arg0"],
+          comment="sc_mstamp_init after its memset (mst, 0, ..): (elem_size, per_stamp, stamp_size, cur_snext, sc_array_init called/args, sc_mstamp_stamp called/arg)")
+        S(g, "c9_mstamp_stamp", "sc_mstamp_stamp", CF, ["mst_cur_snext", "mst_current", "sc_array_push_store", "*ghosts"],
+          ["sc_package_id", "mst_stamp_size", "sc_malloc_ret", "addr_mst_remember"], effects=("sc_malloc", "sc_array_push"),
+          expect_outs=["mst_cur_snext", "mst_current", "sc_array_push_store", "sc_malloc_called", "sc_malloc_arg0", "sc_malloc_arg1",
+                       "sc_array_push_called", "sc_array_push_arg0"],
+          comment="sc_mstamp_stamp: (cur_snext, current, pointer stored in the pushed slot of remember, sc_malloc called/package/size, sc_array_push called/array)")
+        S(g, "c9_mstamp_alloc", "sc_mstamp_alloc", CF, ["ret", "mst_cur_snext", "*ghosts"],
+          ["mst_elem_size", "mst_cur_snext", "mst_current", "mst_per_stamp", "mst"], effects=("sc_mstamp_stamp",), ret="ret",
+          expect_outs=["ret", "mst_cur_snext", "sc_mstamp_stamp_called", "sc_mstamp_stamp_arg0"],
+          comment="sc_mstamp_alloc: (returned pointer, cur_snext BEFORE the effect of sc_mstamp_stamp, sc_mstamp_stamp called/arg)")
+        S(g, "c9_mstamp_truncate", "sc_mstamp_truncate", CF, ["*ghosts"], ["mst", "mst_elem_size"], effects=("sc_mstamp_reset", "sc_mstamp_stamp"),
+          expect_outs=["sc_mstamp_reset_called", "sc_mstamp_reset_arg0", "sc_mstamp_stamp_called", "sc_mstamp_stamp_arg0"])
+        # --- memory pools
+        S(g, "c9_mempool_init", "sc_mempool_init_ext", CF, ["mempool_elem_size", "mempool_elem_count", "mempool_zero_and_persist", "*ghosts"],
+          ["elem_size", "zero_and_persist", "addr_mempool_mstamp", "addr_mempool_freed"], effects=("sc_mstamp_init", "sc_array_init"),
+          expect_outs=["mempool_elem_size", "mempool_elem_count", "mempool_zero_and_persist", "sc_mstamp_init_called", "sc_mstamp_init_arg0",
+                       "sc_mstamp_init_arg1", "sc_mstamp_init_arg2", "sc_array_init_called", "sc_array_init_arg0", "sc_array_init_arg1"])
+        S(g, "c9_mempool_alloc", "sc_mempool_alloc", CF, ["ret", "mempool_elem_count", "*ghosts"],
+          ["mempool_elem_count", "mempool_freed_elem_count", "addr_mempool_freed", "sc_array_pop_ret_deref", "addr_mempool_mstamp",
+           "sc_mstamp_alloc_ret", "mempool_zero_and_persist", "mempool_elem_size"], effects=("sc_array_pop", "sc_mstamp_alloc", "memset"), ret="ret",
+          expect_outs=["ret", "mempool_elem_count", "sc_array_pop_called", "sc_array_pop_arg0", "sc_mstamp_alloc_called", "sc_mstamp_alloc_arg0",
+                       "memset_called", "memset_arg0", "memset_arg1", "memset_arg2"],
+          comment="sc_mempool_alloc (release build): (item, elem_count, pop of freed called/array, sc_mstamp_alloc called/container, memset called/args)")
+        S(g, "c9_mempool_free", "sc_mempool_free", CF, ["mempool_elem_count", "sc_array_push_store", "*ghosts"],
+          ["mempool_elem_count", "addr_mempool_freed", "elem"], effects=("sc_array_push",),
+          expect_outs=["mempool_elem_count", "sc_array_push_store", "sc_array_push_called", "sc_array_push_arg0"])
+        S(g, "c9_mempool_truncate", "sc_mempool_truncate", CF, ["mempool_elem_count", "*ghosts"], ["addr_mempool_freed", "addr_mempool_mstamp"],
+          effects=("sc_array_reset", "sc_mstamp_truncate"),
+          expect_outs=["mempool_elem_count", "sc_array_reset_called", "sc_array_reset_arg0", "sc_mstamp_truncate_called", "sc_mstamp_truncate_arg0"])
+        # --- lists
+        L = ["list_first", "list_last", "list_elem_count"]
+        AL = ["sc_mempool_alloc_called", "sc_mempool_alloc_arg0"]
+        FR = ["sc_mempool_free_called", "sc_mempool_free_arg0", "sc_mempool_free_arg1"]
+        S(g, "c9_list_init", "sc_list_init", CF, L + ["list_allocator", "list_allocator_owned"], ["allocator"])
+        S(g, "c9_list_unlink", "sc_list_unlink", CF, L, [])
+        S(g, "c9_list_prepend", "sc_list_prepend", CF, ["ret"] + L + ["lynk_data", "lynk_next", "*ghosts"],
+          ["list_allocator", "sc_mempool_alloc_ret", "data", "list_first", "list_last", "list_elem_count"], effects=("sc_mempool_alloc",), ret="ret",
+          expect_outs=["ret"] + L + ["lynk_data", "lynk_next"] + AL)
+        S(g, "c9_list_append", "sc_list_append", CF, ["ret"] + L + ["lynk_data", "lynk_next", "list_last_next", "*ghosts"],
+          ["list_allocator", "sc_mempool_alloc_ret", "data", "list_first", "list_last", "list_last_next", "list_elem_count"],
+          effects=("sc_mempool_alloc",), ret="ret", expect_outs=["ret"] + L + ["lynk_data", "lynk_next", "list_last_next"] + AL,
+          comment="list_last_next = the next field of the link that was last when the function was entered")
+        S(g, "c9_list_insert", "sc_list_insert", CF, ["ret"] + L + ["lynk_data", "lynk_next", "pred_next", "*ghosts"],
+          ["list_allocator", "sc_mempool_alloc_ret", "data", "pred_next", "pred", "list_first", "list_last", "list_elem_count"],
+          effects=("sc_mempool_alloc",), ret="ret", expect_outs=["ret"] + L + ["lynk_data", "lynk_next", "pred_next"] + AL)
+        S(g, "c9_list_remove", "sc_list_remove", CF, ["ret"] + L + ["pred_next", "*ghosts"],
+          ["pred", "list", "sc_list_pop_ret", "list_first", "list_last", "list_elem_count", "pred_next", "lynk_next", "lynk_data", "list_allocator"],
+          effects=("sc_mempool_free", "sc_list_pop"), ret="ret",
+          expect_outs=["ret"] + L + ["pred_next", "sc_list_pop_called", "sc_list_pop_arg0"] + FR,
+          comment="lynk = pred->next on entry; lynk_next / lynk_data = the fields of that link")
+        S(g, "c9_list_pop", "sc_list_pop", CF, ["ret"] + L + ["*ghosts"],
+          ["list_first", "lynk_next", "lynk_data", "list_allocator", "list_last", "list_elem_count"], effects=("sc_mempool_free",), ret="ret",
+          expect_outs=["ret"] + L + FR, comment="lynk = list->first on entry")
+        S(g, "c9_list_reset_step", "sc_list_reset", CF, ["lynk", "list_elem_count", "*ghosts"],
+          ["lynk", "list_elem_count", "list_allocator", "lynk_next"], pick=loopbody, params=("lynk", "list_elem_count"),
+          effects=("sc_mempool_free",), expect_outs=["lynk", "list_elem_count"] + FR,
+          comment="one iteration of the loop of sc_list_reset: (next link, elem_count, sc_mempool_free called/allocator/link)")
+        # --- hash table: which slot
+        for cfn, gname in (("sc_hash_lookup", "c9_hash_slot_lookup"), ("sc_hash_insert_unique", "c9_hash_slot_insert"),
+                           ("sc_hash_remove", "c9_hash_slot_remove"), ("sc_hash_maybe_resize", "c9_hash_slot_rehash")):
+            F = fn(cfn, CF)
+            ms = sl.find_nodes(F, lambda n: n.get("kind") == "BinaryOperator" and n.get("opcode") == "%" and
+                               sl.find_nodes(n["inner"][0], lambda m: m.get("kind") == "MemberExpr" and m.get("name") == "hash_fn"))
+            if len(ms) != 1:
+                raise c2g.Unsupported("%s: %d expressions hash_fn (..) %% n" % (cfn, len(ms)))
+            want = ["hash_fn_ret", "new_size"] if cfn == "sc_hash_maybe_resize" else ["hash_fn_ret", "hash_slots_elem_count"]
+            t, i = sl.emit_expr(ms[0], gname, cfn + "/slot", want_params=want, symbolic_calls=("hash_fn",),
+                                comment="the slot index: hash_fn_ret = the unsigned int returned by hash->hash_fn")
+            g.add(t, i)
+        # --- hash array
+        S(g, "c9_harr_insert", "sc_hash_array_insert_unique", CF, ["ret", "position_deref", "found_void_deref", "hash_array_internal_data_current_item", "*ghosts"],
+          ["v", "hash_array_h", "sc_hash_insert_unique_ret", "position", "position_deref", "hash_array_a_elem_count", "addr_hash_array_a",
+           "sc_array_push_ret", "found_void_deref"], effects=("sc_hash_insert_unique", "sc_array_push"), ret="ret",
+          expect_outs=["ret", "position_deref", "found_void_deref", "hash_array_internal_data_current_item", "sc_hash_insert_unique_called",
+                       "sc_hash_insert_unique_arg0", "sc_hash_insert_unique_arg1", "sc_array_push_called", "sc_array_push_arg0"],
+          comment="found_void_deref = *found_void: the element slot of the internal hash table (in: what sc_hash_insert_unique found; out: what is stored)")
+        S(g, "c9_harr_lookup", "sc_hash_array_lookup", CF, ["ret", "position_deref", "hash_array_internal_data_current_item", "*ghosts"],
+          ["v", "hash_array_h", "sc_hash_lookup_ret", "position", "position_deref", "found_void_deref"], effects=("sc_hash_lookup",), ret="ret",
+          expect_outs=["ret", "position_deref", "hash_array_internal_data_current_item", "sc_hash_lookup_called", "sc_hash_lookup_arg0", "sc_hash_lookup_arg1"])
+        # --- recycle array
+        S(g, "c9_rec_init", "sc_recycle_array_init", CF, ["rec_array_elem_count", "*ghosts"], ["addr_rec_array_a", "elem_size", "addr_rec_array_f"],
+          effects=("sc_array_init",),
+          expect_outs=["rec_array_elem_count", "sc_array_init_called", "sc_array_init_arg0", "sc_array_init_arg1", "sc_array_init2_called",
+                       "sc_array_init2_arg0", "sc_array_init2_arg1"])
+        S(g, "c9_rec_reset", "sc_recycle_array_reset", CF, ["rec_array_elem_count", "*ghosts"], ["addr_rec_array_a", "addr_rec_array_f"],
+          effects=("sc_array_reset",),
+          expect_outs=["rec_array_elem_count", "sc_array_reset_called", "sc_array_reset_arg0", "sc_array_reset2_called", "sc_array_reset2_arg0"])
+        S(g, "c9_rec_insert", "sc_recycle_array_insert", CF, ["ret", "position_deref", "rec_array_elem_count", "*ghosts"],
+          ["rec_array_f_elem_count", "addr_rec_array_f", "sc_array_pop_ret_deref", "addr_rec_array_a", "sc_array_index_ret", "rec_array_a_elem_count",
+           "sc_array_push_ret", "position", "position_deref", "rec_array_elem_count"],
+          effects=("sc_array_pop", "sc_array_index", "sc_array_push"), ret="ret", pure=("sc_array_index",),
+          expect_outs=["ret", "position_deref", "rec_array_elem_count", "sc_array_pop_called", "sc_array_pop_arg0", "sc_array_index_called",
+                       "sc_array_index_arg0", "sc_array_index_arg1", "sc_array_push_called", "sc_array_push_arg0"],
+          comment="sc_array_pop_ret_deref = the position read from the popped slot of f")
+        S(g, "c9_rec_remove", "sc_recycle_array_remove", CF, ["ret", "rec_array_elem_count", "sc_array_push_store", "*ghosts"],
+          ["addr_rec_array_f", "position", "rec_array_elem_count", "addr_rec_array_a", "sc_array_index_ret"],
+          effects=("sc_array_index", "sc_array_push"), ret="ret",
+          expect_outs=["ret", "rec_array_elem_count", "sc_array_push_store", "sc_array_push_called", "sc_array_push_arg0", "sc_array_index_called",
+                       "sc_array_index_arg0", "sc_array_index_arg1"])
+        return g, [CF, CH]
+
+    # ------------------------------------------------------------------------------------------------------------------
+    def gen_avl_steps(tmp):
+        g = Group("AvlStepsC09")
+        fn, S = mkslicer(tmp, {})
+        S(g, "c9_avl_at_step", "avl_at", AF, ["stop", "retval", "avlnode", "u"], ["avlnode", "u", "avlnode_left", "avlnode_left_count", "avlnode_right"],
+          pick=lambda F: R.returns_to_breaks(loopbody(F)), jumps_end=True, params=("avlnode", "u"), init={"retval": "0"},
+          comment="one iteration of the loop of avl_at: (1 = return, returned node, next node, next u)")
+        S(g, "c9_avl_index_step", "avl_index", AF, ["avlnode", "c"], ["avlnode", "c", "next", "next_right", "next_left", "next_left_count"],
+          pick=loopbody, params=("avlnode", "c", "next"),
+          comment="one iteration of the loop of avl_index (next = avlnode->parent, non-NULL): (next node, c)")
+        S(g, "c9_avl_search_step", "avl_search_closest", AF, ["stop", "retval", "node", "avlnode_deref"],
+          ["cmp_ret", "node_left", "avlnode_deref", "node", "node_right"],
+          pick=lambda F: R.returns_to_breaks(loopbody(F)), jumps_end=True, symbolic_calls=("cmp",), init={"retval": "0"},
+          comment="one iteration of the loop of avl_search_closest: (1 = return, return value, next node, *avlnode)")
+        # the rotation kind conditions and CALC_COUNT inside avl_rebalance
+        F = fn("avl_rebalance", AF)
+        sw = sl.find_nodes(F, lambda n: n.get("kind") == "SwitchStmt")
+        if len(sw) != 1:
+            raise c2g.Unsupported("avl_rebalance: expected one switch")
+        swbody = [c for c in kids(sw[0]) if c.get("kind") == "CompoundStmt"]
+        if len(swbody) != 1:
+            raise c2g.Unsupported("avl_rebalance: switch body is not a block")
+        # a case label holds only its first statement: group the following siblings with it
+        cases = []
+        for st in kids(swbody[0]):
+            if st.get("kind") in ("CaseStmt", "DefaultStmt"):
+                cases.append(dict(st, inner=list(st.get("inner", []))))
+            elif cases:
+                cases[-1]["inner"].append(st)
+            else:
+                raise c2g.Unsupported("avl_rebalance: statement before the first case")
+        labels = []
+        for cse in cases:
+            if cse.get("kind") == "DefaultStmt":
+                labels.append("default")
+                continue
+            T = c2g.Translator()
+            T.fname = "avl_rebalance/case"
+            labels.append(T.expr(kids(cse)[0], {}).z())
+        if labels != ["(-1)", "1", "default"]:
+            raise c2g.Unsupported("avl_rebalance: case labels %s" % labels)
+        for cse, gname in ((cases[0], "c9_avl_left_single"), (cases[1], "c9_avl_right_single")):
+            ifs = [n for n in sl.find_nodes(cse, lambda n: n.get("kind") == "IfStmt") if
+                   {"child"} <= sl.refs(kids(n)[0]) and len(kids(n)) == 3]
+            if not ifs:
+                raise c2g.Unsupported("avl_rebalance: no single/double rotation test in a case")
+            t, i = sl.emit_cond(kids(ifs[0])[0], gname, "avl_rebalance/rotation kind",
+                                want_params=["child_left", "child_left_count", "child_right", "child_right_count"],
+                                comment="true: single rotation, false: double rotation (child = the heavy child)")
+            g.add(t, i)
+        dflt = cases[2]
+        asg = sl.find_nodes(dflt, lambda n: n.get("kind") == "BinaryOperator" and n.get("opcode") == "=")
+        if len(asg) != 1:
+            raise c2g.Unsupported("avl_rebalance: default case is not one count assignment")
+        t, i = sl.emit_expr(asg[0]["inner"][1], "c9_avl_calc_count", "avl_rebalance/CALC_COUNT",
+                            want_params=["avlnode_left", "avlnode_left_count", "avlnode_right", "avlnode_right_count"],
+                            comment="CALC_COUNT (avlnode)")
+        g.add(t, i)
+        # every count assignment inside the rotations uses the same macro on its own node
+        cnt = sl.find_nodes(sw[0], lambda n: n.get("kind") == "BinaryOperator" and n.get("opcode") == "=" and
+                            c2g.skip_parens(n["inner"][0]).get("kind") == "MemberExpr" and c2g.skip_parens(n["inner"][0]).get("name") == "count")
+        seq = []
+        for a in cnt:
+            T = sl.SliceT()
+            T.fname = "avl_rebalance/count"
+            T.free_as_params = True
+            T.fun_params = []
+            node = T.lvalue_key(a["inner"][0])[:-len("_count")]
+            e = T.expr(a["inner"][1], {})
+            want = sorted([node + "_left", node + "_left_count", node + "_right", node + "_right_count"])
+            if sorted(T.params) != want:
+                raise c2g.Unsupported("avl_rebalance: %s->count is not CALC_COUNT of the same node" % node)
+            seq.append(node)
+        names = {"avlnode": 1, "child": 2, "gchild": 3}
+        if any(s not in names for s in seq):
+            raise c2g.Unsupported("avl_rebalance: count of an unexpected node %s" % seq)
+        g.add("(* the order in which avl_rebalance recomputes the counts (1 = avlnode, 2 = child, 3 = gchild), in source order:\n"
+              "   left single, left double, right single, right double, no rotation *)\n"
+              "Definition c9_avl_count_order : list Z := [%s].\n" % "; ".join(str(names[s]) for s in seq),
+              dict(name="c9_avl_count_order", fuel=False, params=[]))
+        return g, [AF]
+
+    # ------------------------------------------------------------------------------------------------------------------
+    def gen_keyvalue(tmp):
+        g = Group("KeyValueC09")
+        fn, S = mkslicer(tmp, {})
+        objs = c2g.clang_ast(KH, "", incs(tmp))
+        acc = []
+
+        def find_enum(n):
+            if isinstance(n, dict):
+                if n.get("kind") == "EnumDecl" and any(c.get("name") == "SC_KEYVALUE_ENTRY_NONE" for c in kids(n)):
+                    acc.append(n)
+                for c in n.get("inner", []):
+                    find_enum(c)
+        for o in objs:
+            find_enum(o)
+        if not acc:
+            raise c2g.Unsupported("enum sc_keyvalue_entry_type_t not found")
+        val = -1
+        for c in kids(acc[0]):
+            if c.get("kind") != "EnumConstantDecl":
+                continue
+            ce = [k for k in kids(c) if k.get("kind") == "ConstantExpr"]
+            others = [k for k in kids(c) if k.get("kind") not in ("ConstantExpr", "FullComment")]
+            if others:
+                raise c2g.Unsupported("enumerator %s has an initialiser that is not a constant" % c.get("name"))
+            val = int(ce[0]["value"]) if ce else val + 1
+            g.add("Definition c9_%s : Z := %d.\n" % (c["name"], val), dict(name="c9_" + c["name"], fuel=False, params=[]))
+        ety = lambda b: R.retype(b, "sc_keyvalue_entry_type_t")
+        S(g, "c9_kv_get_int_check", "sc_keyvalue_get_int_check", KF, ["ret", "status_deref", "svalue_key", "*ghosts"],
+          ["status", "status_deref", "key", "SC_KEYVALUE_ENTRY_NONE", "kv_hash", "sc_hash_lookup_ret", "found_deref", "value_type",
+           "SC_KEYVALUE_ENTRY_INT", "value_value_i"], effects=("sc_hash_lookup",), ret="ret", enum_params=True, pre=ety,
+          expect_outs=["ret", "status_deref", "svalue_key", "sc_hash_lookup_called", "sc_hash_lookup_arg0"],
+          comment="value = the entry *found; (result, *status, key of the probe entry, sc_hash_lookup called/table)")
+        S(g, "c9_kv_exists", "sc_keyvalue_exists", KF, ["ret", "svalue_key", "*ghosts"],
+          ["key", "SC_KEYVALUE_ENTRY_NONE", "kv_hash", "sc_hash_lookup_ret", "found_deref", "value_type"],
+          effects=("sc_hash_lookup",), ret="ret", enum_params=True, pre=ety,
+          expect_outs=["ret", "svalue_key", "sc_hash_lookup_called", "sc_hash_lookup_arg0"])
+        S(g, "c9_kv_unset", "sc_keyvalue_unset", KF, ["ret", "svalue_key", "*ghosts"],
+          ["key", "SC_KEYVALUE_ENTRY_NONE", "kv_hash", "sc_hash_remove_ret", "found", "value_type", "kv_value_allocator"],
+          effects=("sc_hash_remove", "sc_mempool_free"), ret="ret", enum_params=True, pre=ety,
+          expect_outs=["ret", "svalue_key", "sc_hash_remove_called", "sc_hash_remove_arg0", "sc_mempool_free_called", "sc_mempool_free_arg0",
+                       "sc_mempool_free_arg1"])
+        return g, [KF, KH]
+
+    GROUPS["ContainersC09"] = gen_containers
+    GROUPS["AvlStepsC09"] = gen_avl_steps
+    GROUPS["KeyValueC09"] = gen_keyvalue
